@@ -28,7 +28,7 @@ Proof.
     destruct w.
     + destruct (walk_sections ss); try discriminate. exact IH.
     + destruct (walk_sections ss); try discriminate. exact IH.
-    + exact Hw.
+    + exfalso. apply Hw. reflexivity.
 Qed.
 
 (* a sub-parser that answers, answers with something satisfying P *)
@@ -131,6 +131,3 @@ Proof.
   - exfalso. apply Hc. reflexivity.
   - exfalso. apply Hf. reflexivity.
 Qed.
-
-Print Assumptions parse_never_crashes.
-Print Assumptions parse_answers.
